@@ -1,4 +1,5 @@
 import Driver.C13
+import Driver.C14
 /-
   Line-protocol driver: one case per input line (`<op> <args…>`), one output line per
   case: `<model outcome>\t<oracle expectation or ->`.  Built from the very definitions the
@@ -12,6 +13,7 @@ def handle (line : String) : String :=
   | [] => "bad-case"
   | op :: _ =>
     if op == "tpkt_read" || op == "x224_read" then c13 toks
+    else if op == "tpkt_write" || op == "x224_write" then c14 toks
     else "bad-op"
 
 partial def loop (h : IO.FS.Stream) (out : IO.FS.Stream) : IO Unit := do
